@@ -19,6 +19,7 @@ lists of calls:
       to the same path: the last `Write` (resp. `WriteSlice`) of a path determines what is found there at the end;
 * T9f `writeSlices_last_block_wins` — any number of `WriteSlice` calls to ONE dataset, blocks overlapping in any way: every
       element is that of the last request whose block covers its coordinate, else the original;
+* T9g `write_then_writeSlices` — a `Write` that returned nil followed by any number of `WriteSlice` calls to the same path;
 * T9c `writeSlice_then_load_across` — T4 across a history: the dataset after `WriteSlice` + any calls on other paths
       differs from the dataset before exactly on the block.
 
@@ -201,6 +202,38 @@ theorem writeSlices_last_block_wins (path : String) : ∀ (reqs : List SliceReq)
       have hv : q.vals = vals := by simp only [SliceReq.vals, h1]
       simp only [expectAfter, hv]
 
+/-- T9g (a `Write` followed by any number of `WriteSlice` calls to the same path). If `Write(data)` returns nil on a
+well-formed file (or no file), then after ANY list of `WriteSlice` requests to that path — each reachable, well-windowed,
+its block inside the written shape — the dataset found there has the written shape and, at every coordinate, the source
+element of the last request whose block covers it, else the element the `Write` stored. -/
+theorem write_then_writeSlices (h : Heap Int) (a : Arr) (hr : Reach a.v) (ok : ArrOK h a)
+    (d d' : Disk) (path : String) (wf : DiskWF d) (hw : write false h a d path = (d', .ok ()))
+    (reqs : List SliceReq) :
+    ∃ vals t1 p s, OW.NdC02.getAll h a (OW.NdC02.rowMajor a.v.dims) = .ok vals ∧ d' = some t1 ∧
+      openDataset t1 path = .ok (p, s, vals) ∧ uintsToInts s = a.v.dims ∧
+      ((∀ q ∈ reqs, q.OK s) →
+        ∃ t' v', applyOps false d' (reqs.map fun q => Op.writeSlice q.h q.a path q.loc) = some t' ∧ WF t' ∧
+          find t' p = some (.ds s v') ∧ v'.length = vals.length ∧
+          ∀ c, CoordIn c s → v'[ravelN c s]? = (reqs.foldl expectAfter (fun c => vals[ravelN c s]?)) c) := by
+  obtain ⟨vals, h1, h2, hwf⟩ := write_load_roundtrip h a hr ok d d' path wf hw
+  cases d' with
+  | none => simp [load] at h2
+  | some t1 =>
+    have wf1 : WF t1 := hwf t1 rfl
+    cases hod : openDataset t1 path with
+    | error e => simp [load, hod] at h2
+    | ok r =>
+      obtain ⟨p, s, v⟩ := r
+      have hv : v.length = prodN s := by
+        obtain ⟨_, hpne, hfind⟩ := openDataset_eq.mp hod
+        exact wf_of_lookup wf1 (by simpa [find, hpne] using hfind)
+      rw [load_full hod hv] at h2
+      simp only [Res.ok.injEq, Prod.mk.injEq] at h2
+      obtain ⟨hs, rfl⟩ := h2
+      refine ⟨v, t1, p, s, h1, rfl, hod, hs, ?_⟩
+      intro hall
+      exact writeSlices_last_block_wins path reqs t1 p s v wf1 hod hall
+
 /-! ### non-vacuity -/
 namespace Ex
 open OW.Props.C02.Ex
@@ -292,6 +325,31 @@ example : ∃ t' v', applyOps false (some file34)
   · rw [h5 [0, 0] (by simp [CoordIn])]
     simp only [List.foldl_cons, List.foldl_nil, expectAfter, hv.1, hv.2, e1, e0, e2]
     decide
+
+/-- T9g instance: the `Write` of the stepped view to "a" of a new file returns nil (`write_stepped`); the shape found is
+2×2, and the request "the same view at (0,0)" meets `SliceReq.OK` for it, so the conclusion applies to a non-empty list -/
+example : ∃ (t' : Tree) (v' : List Int), applyOps false (some [(["a"], .ds [2, 2] [0, 2, 8, 10])])
+      [.writeSlice heap stepped "a" [0, 0]] = some t' ∧ WF t' ∧ find t' ["a"] = some (.ds [2, 2] v') ∧ v'.length = 4 := by
+  obtain ⟨vals, t1, p, s, h1, h2, h3, h4, h5⟩ :=
+    write_then_writeSlices heap stepped reach_stepped ok_stepped none _ "a" (fun _ h => by cases h) write_stepped
+      [⟨heap, stepped, [0, 0]⟩]
+  cases h2
+  have hod : openDataset [(["a"], Obj.ds [2, 2] [0, 2, 8, 10])] "a" = .ok (["a"], [2, 2], [0, 2, 8, 10]) := by
+    simp only [openDataset, splitPath_a]; decide
+  rw [hod] at h3
+  simp only [Except.ok.injEq, Prod.mk.injEq] at h3
+  obtain ⟨rfl, rfl, rfl⟩ := h3
+  obtain ⟨t', v', g1, g2, g3, g4, -⟩ := h5 (by
+    intro q hq
+    simp only [List.mem_singleton] at hq
+    subst hq
+    refine ⟨reach_stepped, ok_stepped, ?_⟩
+    have e1 : intsToUints [0, 0] = [0, 0] := by decide
+    have e2 : intsToUints stepped.v.dims = [2, 2] := by decide
+    show BlockIn (intsToUints [0, 0]) (intsToUints stepped.v.dims) [2, 2]
+    rw [e1, e2]
+    exact ⟨by omega, by omega, trivial⟩)
+  exact ⟨t', v', g1, g2, g3, g4⟩
 
 end Ex
 end OW.Props.C08
